@@ -105,6 +105,26 @@ func Harness_C16_route() {
 	for i := 0; i < n-1; i++ {
 		VerifAcceptScript = append(VerifAcceptScript, 0)
 	}
+	// go-away followed by close: while the connection is still open the proxy
+	// drops the upstream from the registry (its dial returned ErrGone); the
+	// handler's own deregistration then finds it already removed
+	goAway := v.Choose("go-away-first", 2) == 1
+	vProbe = nil
+	if goAway {
+		n++
+		VerifAcceptScript = append(VerifAcceptScript, 6)
+		vProbe = func() {
+			if lb, ok := m.localUpstreams[ep]; ok {
+				for _, u := range lb.upstreams {
+					if cu, isConn := u.(*ConnUpstream); isConn && len(VerifSessions) == 1 && cu.sess == VerifSessions[0] {
+						m.RemoveConn(u)
+						v.Cover("dropped-by-proxy-after-go-away")
+						return
+					}
+				}
+			}
+		}
+	}
 	end := 1 + v.Choose("end", 5)
 	VerifAcceptScript = append(VerifAcceptScript, end)
 	if end == 2 && v.Choose("shutdown", 2) == 1 {
@@ -112,6 +132,7 @@ func Harness_C16_route() {
 	}
 
 	s.upstreamRoute(c)
+	vProbe = nil
 
 	status := ginstub.Of(c).Status
 	if !permitted {
@@ -175,17 +196,27 @@ func Harness_C16_route() {
 
 // Harness_C16_registered_while_connected: while the handler is blocked in
 // accept the upstream is registered for exactly the endpoint of the URL and
-// selectable; Shutdown cancels the context the handlers wait on.
+// selectable; a handler that is blocked in accept (connection open, whatever
+// token it authenticated with) is ended by Shutdown: the context it waits on
+// is cancelled whether or not the HTTP server shut down cleanly.
 func Harness_C16_registered_while_connected() {
 	s, m, cs, _ := vNewUpstreamServer()
 	ep := []string{"e0", "e1"}[v.Choose("ep", 2)]
 	r := &http.Request{Method: "GET", Header: http.Header{}}
 	c := ginstub.NewContext(r, ginstub.NewWriter())
 	ginstub.Of(c).Params["endpointID"] = ep
+	switch v.Choose("token", 3) {
+	case 1:
+		c.Set(middleware.TokenContextKey, &auth.Token{TenantID: "t"})
+		v.Cover("token-without-expiry")
+	case 2:
+		c.Set(middleware.TokenContextKey, &auth.Token{TenantID: "t", Expiry: v.Time("expiry")})
+		v.Cover("token-with-expiry")
+	}
 	VerifUpgradeOK = true
 	VerifSessions, VerifAcceptCtx, VerifAcceptCalls = nil, nil, 0
 	vClosed = nil
-	VerifAcceptScript = []int{6, 1} // 6: probe (see vProbe), then the connection closes
+	VerifAcceptScript = []int{6, 7} // 6: probe (see vProbe), 7: blocked until the context ends (see vBlock)
 	vProbe = func() {
 		v.Assert("C16/registered-while-connected", VerifRegistered(m, ep) == 1 && cs.LocalEndpointListeners(ep) == 1)
 		u, ok := m.Select(ep, false)
@@ -199,25 +230,33 @@ func Harness_C16_registered_while_connected() {
 		v.Assert("C16/session-tracked", s.openSessions() == 1)
 		v.Cover("probed")
 	}
-	s.upstreamRoute(c)
-	vProbe = nil
-	v.Assert("C16/deregistered-after", VerifRegistered(m, ep) == 0 && cs.LocalEndpointListeners(ep) == 0 && s.openSessions() == 0)
-
-	// Shutdown cancels the context handed to accept
-	ctx := s.ctx
-	v.Assert("C16/context-live-before-shutdown", ctx.Err() == nil)
-	s.httpServer = &http.Server{}
-	VerifHTTPShutdownFail = v.Choose("http-shutdown-fails", 2) == 1
-	err := s.Shutdown(context.Background())
-	v.Assert("C16/shutdown-reports-http-error", (err != nil) == VerifHTTPShutdownFail)
-	// whether or not the HTTP server shut down cleanly, upstream connections are closed
-	v.Assert("C16/shutdown-cancels-handlers", ctx.Err() != nil)
-	if VerifHTTPShutdownFail {
-		v.Cover("http-shutdown-failed")
+	shutdowns := 0
+	vBlock = func(waiting context.Context) {
+		// the connection stays open: only the server can end the handler
+		v.Assert("C16/context-live-before-shutdown", waiting.Err() == nil && s.ctx.Err() == nil)
+		v.Assert("C16/registered-while-connected", VerifRegistered(m, ep) == 1)
+		s.httpServer = &http.Server{}
+		VerifHTTPShutdownFail = v.Choose("http-shutdown-fails", 2) == 1
+		err := s.Shutdown(context.Background())
+		shutdowns++
+		v.Assert("C16/shutdown-reports-http-error", (err != nil) == VerifHTTPShutdownFail)
+		// whether or not the HTTP server shut down cleanly, upstream connections are closed
+		v.Assert("C16/shutdown-cancels-handlers", s.ctx.Err() != nil)
+		v.Assert("C16/shutdown-ends-blocked-handler", waiting.Err() != nil)
+		if VerifHTTPShutdownFail {
+			v.Cover("http-shutdown-failed")
+		}
 	}
+	s.upstreamRoute(c)
+	vProbe, vBlock = nil, nil
+	v.Assert("C16/handler-waited-until-shutdown", shutdowns == 1 && VerifAcceptCalls == 2)
+	v.Assert("C16/deregistered-after", VerifRegistered(m, ep) == 0 && cs.LocalEndpointListeners(ep) == 0 && s.openSessions() == 0)
 }
 
-var vProbe func()
+var (
+	vProbe func()
+	vBlock func(context.Context)
+)
 
 // net/http.Server.Shutdown is recorded (order of shutdown steps, C18).
 //
